@@ -1,8 +1,122 @@
 import PyresampleModel.Model.C03
+import PyresampleModel.Props.C02
+import PyresampleModel.Props.C19
+import PyresampleModel.Props.C15
+import PyresampleModel.Proofs.Num
 
 /-
-  C03 — property theorems (stub: none yet).
+  C03 — property theorems: segments / reduction / worker count / info reuse / empty shortcuts.
 -/
 namespace PyresampleModel.C03
+open PyresampleModel.C19 PyresampleModel.C02
+
+theorem aux_chain_ranges : ∀ (sl : List (Nat × Nat)) (a b : Nat), Chain a b sl →
+    (sl.map (fun s => List.range' s.1 (s.2 - s.1))).flatten = List.range' a (b - a) := by
+  intro sl
+  induction sl with
+  | nil => intro a b h; simp [Chain] at h; subst h; simp
+  | cons s ss ih =>
+    intro a b h
+    obtain ⟨s1, s2⟩ := s
+    simp only [Chain] at h
+    obtain ⟨rfl, hlt, hrest⟩ := h
+    have hle : s2 ≤ b := by
+      clear ih
+      induction ss generalizing s2 with
+      | nil => simp [Chain] at hrest; omega
+      | cons t ts iht =>
+        obtain ⟨t1, t2⟩ := t
+        simp only [Chain] at hrest
+        have := iht t2 (by omega) hrest.2.2
+        omega
+    simp only [List.map_cons, List.flatten_cons, ih s2 b hrest]
+    have : b - s1 = (s2 - s1) + (b - s2) := by omega
+    rw [this, ← List.range'_append_1]
+    congr 2; omega
+
+/-- **the number of segments is invisible**: for every target size and every segment count ≥ 1,
+querying segment by segment and appending the results through `RowAppendableArray` gives exactly
+the rows of the single query, in order, with no uninitialised cell -/
+theorem segments_invisible {β} (q : Nat → β) (size segments : Nat) (hseg : 1 ≤ segments) (hsize : 0 < size) :
+    segmentedQuery q size segments = some ((plainQuery q size).map some) := by
+  unfold segmentedQuery plainQuery
+  have hch := getSlice_partition segments size hseg
+  have hne : (getSlice segments size).map (fun s => (List.range' s.1 (s.2 - s.1)).map q) ≠ [] := by
+    intro h
+    have : getSlice segments size = [] := by simpa using h
+    rw [this] at hch; simp [Chain] at hch; omega
+  rw [append_eq_concat size _ hne]
+  congr 2
+  have : ((getSlice segments size).map (fun s => (List.range' s.1 (s.2 - s.1)).map q)).flatten =
+      (((getSlice segments size).map (fun s => List.range' s.1 (s.2 - s.1))).flatten).map q := by
+    rw [List.map_flatten, List.map_map]; rfl
+  rw [this, aux_chain_ranges _ 0 size hch, List.range_eq_range', Nat.sub_zero]
+
+theorem aux_reduce_get (srcValid keep : List Bool) (_hl : srcValid.length = keep.length) (s : Nat) :
+    (reduceValid srcValid keep)[s]? = some true ↔ (srcValid[s]? = some true ∧ keep[s]? = some true) := by
+  simp only [reduceValid, List.getElem?_zipWith]
+  cases h1 : srcValid[s]? <;> cases h2 : keep[s]? <;> simp
+
+/-- **data reduction is invisible exactly when its window is sound**: if every valid source that
+lies within the radius of the target location is kept by the reduction, then an answer that is
+correct for the reduced source set (sentinel iff no reduced source in range, else a nearest reduced
+source in range) is also correct for the full source set: same "no neighbour" verdict, and the
+chosen source is nearest among ALL valid sources. -/
+theorem reduction_invisible_of_sound (srcValid keep : List Bool) (hl : srcValid.length = keep.length)
+    (d2 : Nat → Nat → Rat) (r2 : Rat) (j : Nat)
+    (hsound : ∀ s, srcValid[s]? = some true → d2 s j ≤ r2 → keep[s]? = some true) :
+    ((∀ s, (reduceValid srcValid keep)[s]? = some true → ¬ d2 s j ≤ r2) ↔
+      (∀ s, srcValid[s]? = some true → ¬ d2 s j ≤ r2)) ∧
+    (∀ s, (reduceValid srcValid keep)[s]? = some true → d2 s j ≤ r2 →
+      (∀ s', (reduceValid srcValid keep)[s']? = some true → d2 s j ≤ d2 s' j) →
+      srcValid[s]? = some true ∧ ∀ s', srcValid[s']? = some true → d2 s j ≤ d2 s' j) := by
+  constructor
+  · constructor
+    · intro h s hs hin
+      exact h s ((aux_reduce_get _ _ hl s).mpr ⟨hs, hsound s hs hin⟩) hin
+    · intro h s hs
+      exact h s ((aux_reduce_get _ _ hl s).mp hs).1
+  · intro s hs hin hmin
+    refine ⟨((aux_reduce_get _ _ hl s).mp hs).1, ?_⟩
+    intro s' hs'
+    by_cases hin' : d2 s' j ≤ r2
+    · exact hmin s' ((aux_reduce_get _ _ hl s').mpr ⟨hs', hsound s' hs' hin'⟩)
+    · exact le_of_lt (lt_of_le_of_lt hin (not_le.mp hin'))
+
+/-- … and the converse: a reduction that drops the unique in-range source changes the verdict -/
+theorem reduction_visible_of_unsound :
+    ∃ (srcValid keep : List Bool) (d2 : Nat → Nat → Rat) (r2 : Rat),
+      (∃ s, srcValid[s]? = some true ∧ d2 s 0 ≤ r2) ∧
+      (∀ s, (reduceValid srcValid keep)[s]? = some true → ¬ d2 s 0 ≤ r2) :=
+  ⟨[true], [false], fun _ _ => 0, 1, ⟨0, rfl, by norm_num⟩, by intro s hs; cases s <;> simp [reduceValid] at hs⟩
+
+/-- **empty-result shortcut** = the general pipeline run on "no valid source" -/
+theorem empty_shortcut_agrees {α} (data : List α) (nTarget : Nat) (fill : α) :
+    pipelineNN (List.replicate data.length false) data (emptyInfo nTarget data.length).1
+      ((emptyInfo nTarget data.length).2.map (fun _ => 0)) fill = emptySample nTarget fill := by
+  simp only [emptyInfo, emptySample, pipelineNN, gatherNN, List.map_replicate]
+  have hc : (List.replicate data.length false).count true = 0 := by simp [List.count_replicate]
+  rw [hc]
+  simp only [if_true]
+  induction nTarget with
+  | zero => simp [scatter]
+  | succ n ih => simp only [List.replicate_succ, scatter, ih]
+
+/-- **the split into neighbour info + sampling and the reuse of neighbour info**: the sample is a
+function of (info, data) only — so info computed once gives, for every dataset, what the one-shot
+call gives -/
+theorem info_reuse {α} (srcValid tgtValid : List Bool) (q : List Nat) (fill : α) (datasets : List (List α)) :
+    datasets.map (fun d => pipelineNN srcValid d tgtValid q fill) =
+      datasets.map (fun d => scatter fill tgtValid (gatherNN (compact d srcValid) (srcValid.count true) fill q)) := rfl
+
+/-- **the number of worker processes is invisible**: whatever the interleaving, assembling the
+per-slice results of the scheduler's slices gives the single-process result (from C15) -/
+theorem nprocs_invisible {α β} (c : C15.Cfg) (n workers : Nat) (hc : 1 ≤ c.chunk) (hW : 0 < workers)
+    (sched : List Nat) (hdone : ∀ pc ∈ (C15.run c (C15.init n workers) sched).pcs, pc = C15.Pc.done)
+    (f : α → β) (x : List α) (hx : x.length = n) (res : List β) (hr : res.length = n) :
+    C15.assemble f x (C15.slicesOf (C15.run c (C15.init n workers) sched).yielded) res = x.map f :=
+  (C15.scheduler_exact_cover c n workers hc hW sched hdone f x hx res hr).2.2.2
+
+example : segmentedQuery (fun i => i * 10) 5 2 = some [some 0, some 10, some 20, some 30, some 40] := by decide
 
 end PyresampleModel.C03
